@@ -403,6 +403,13 @@ impl World {
                             msg: format!("after {op:?} the initiator emits {pr}::{variant} to {p} although no handshake Accept has been received on this connection (handshake state {})", self.wire[iu]["handshake"]),
                         });
                     }
+                    if (pr == "leiosnotify" || pr == "leiosfetch") && self.cfg.version < 15 && check_wire {
+                        // the Leios mini-protocols exist from handshake version 15 on (the library's own LEIOS_MIN_VERSION)
+                        return Err(Violation {
+                            sig: format!("c28:{pr}:{variant}:not-in-negotiated-version"),
+                            msg: format!("after {op:?} the initiator emits {pr}::{variant} to {p} although version {} was negotiated, which has no Leios mini-protocols", self.cfg.version),
+                        });
+                    }
                     if pr == "peersharing" && self.cfg.accept_peer_sharing != 1 && check_wire {
                         // the responder negotiated peer sharing off: it does not run that mini-protocol at all
                         return Err(Violation {
